@@ -10,7 +10,7 @@ def main(tier, replay=None):
     fams = [dict(scn="c07", name="c07-" + f, opts=["family=" + f] + th, bounds="0,0,0,0", total=0, deadline=1200) for f in ("status", "cut", "limits", "multi", "peer")]
     nf = 1 if tier == "quick" else 2
     fams.append(dict(scn="c07", name="c07-faults", opts=["family=faults"], bounds="0,%d,0,0" % nf, total=nf, deadline=1200))
-    run_families(res, "C07", tier, fams)
+    plain_src = run_families(res, "C07", tier, fams)
     res.rule = ("real qmail-smtpd, qmail-qmtpd and qmail-qmqpd with the real qmail.c (real fork/exec) under the virtual kernel; the queue program is a "
                 "stand-in that records both streams, aborts with 54 on an incomplete envelope as qmail-queue(8) prescribes and otherwise exits "
                 "with the scripted status (one family uses the real qmail-queue).  status: every exit status 0..255, status 82 with five texts, "
@@ -23,4 +23,5 @@ def main(tier, replay=None):
                 "acknowledged envelope, and the refusal class is permanent for 11..40/size/hops/addresses and temporary otherwise")
     res.assumptions = ["virtual kernel (appendix A)", "exit status 115 (undocumented compatibility code) may map to either refusal class"]
     res.require_nonzero("evaluations", "acknowledged", "commits_verified", "refused_permanently", "refused_temporarily", "no_reply", "multi_message_connections", "runs_with_injected_fault")
+    lib_conformance(res, rundir("C07lib"), plain_src, ['io', 'num', 'ctl'], tier, asan=False)
     return res.finish()
